@@ -554,6 +554,45 @@ def random_case(rng: random.Random, big: bool) -> dict:
                                   ["-c", "import app; app.main()"], ["/srv/app/run.py", "--port", "0", ""]])}
 
 
+def directed_cases(rng: random.Random, per: int) -> list:
+    """small schedules around the situations the contract names (each with random kinds / placements)"""
+    out = []
+    S = lambda *race: {"k": "scan", "race": [dict(x, at=x.get("at", 0)) for x in race]}
+    E = lambda op, f, m=0: {"k": "env", "op": op, "f": f, "m": m}
+    D = lambda c: {"k": "env", "op": "die", "c": c}
+
+    def case(kinds, inits, sched, pats=()):
+        return {"files": [{"kind": k, "init": m} for k, m in zip(kinds, inits)], "pats": list(pats), "sched": sched,
+                "mode": rng.choice(["direct", "rwr"]), "interval": rng.choice([1000, 250]), "order": rng.randrange(1000)}
+
+    for _ in range(per):
+        n = rng.randint(2, 4)
+        kinds = [rng.choice(WATCHED_KINDS[:2] + WATCHED_KINDS[2:4] + WATCHED_KINDS[5:]) for _ in range(n)]
+        f, g = rng.sample(range(1, n + 1), 2)
+        at = rng.randint(0, n)
+        # a file vanishes while a scan runs and another one has changed
+        out.append(case(kinds, [2] * n, [S(), E("touch", f, 3), S({"op": "delete", "f": g, "m": 0, "at": at}), S(), D(0)]))
+        # ... vanished before the scan
+        out.append(case(kinds, [2] * n, [S(), E("delete", g), E("touch", f, 3), S(), S(), D(1)]))
+        # two files change in one interval
+        out.append(case(kinds, [2] * n, [S(), E("touch", f, 3), E("touch", g, 4), S(), S(), D(0)]))
+        # replaced (deleted and created again, newer) within one interval / across a scan
+        out.append(case(kinds, [2] * n, [S(), S(), E("delete", f), E("create", f, 3), S(), S(), D(0)]))
+        out.append(case(kinds, [2] * n, [S(), E("delete", f), S(), E("create", f, 3), S(), E("touch", f, 4), S(), D(0)]))
+        # created after start-up: first sight records, the next change reloads
+        out.append(case(kinds, [0 if i + 1 == f else 2 for i in range(n)], [S(), E("create", f, 5), S(), S(), E("touch", f, 6), S(), S(), D(0)]))
+        # older mtime, then newer than the recorded one
+        out.append(case(kinds, [3] * n, [S(), E("touch", f, 2), S(), E("touch", f, 4), S(), S(), D(0)]))
+        # an excluded file changes, then an observed one
+        rel = KINDS[kinds[g - 1]].format(i=g)
+        out.append(case(kinds, [2] * n, [S(), E("touch", g, 3), S(), S(), E("touch", f, 3), S(), S(), D(2)], pats=["*/" + rel]))
+        # the child ends on its own: only 3 restarts it
+        out.append(case(kinds, [2] * n, [S(), D(rng.choice([3, 3, 0, 1, 2, 130, 255, -1])), S(), D(3), S(), S(), D(rng.choice([0, 1, 4, 143]))]))
+        # the change happens between the stats of a scan
+        out.append(case(kinds, [2] * n, [S(), S({"op": "touch", "f": f, "m": 3, "at": at}), S(), S(), D(0)]))
+    return out
+
+
 # ====================================================================== _get_args_for_reloading
 ARG_KINDS = ["modern", "script", "script_abs", "module_main", "module_sub", "module_top", "pydevd"]
 
